@@ -175,6 +175,21 @@ fn epilogue(wd: &World) {
             acts.push(Act::WDrop { dst: WLoc::WR(i as u8) });
         }
     }
+    // probe tail: a fresh object goes through creation, buffering, un-buffering, downgrade / upgrade and try_unwrap at top
+    // level with everything else gone. Whatever earlier operations (or an unwound call) left behind in the collector's
+    // state, these calls must behave as the statements say (C05 born-finalized, C08 / C09 upgrade and counts, C11 buffer,
+    // C13 try_unwrap of a unique pointer): each is judged by the oracle of its own property.
+    acts.push(Act::New { dst: Dst::R(0), spec: Box::new(Spec::default()) });
+    acts.push(Act::Clone { src: Src::R(0), dst: Dst::R(1) });
+    acts.push(Act::Drop { dst: Dst::R(1) });
+    acts.push(Act::Downgrade { src: Src::R(0), dst: WLoc::WR(0) });
+    acts.push(Act::Upgrade { src: WLoc::WR(0), dst: Dst::R(1) });
+    acts.push(Act::Drop { dst: Dst::R(1) });
+    acts.push(Act::Query);
+    acts.push(Act::TryUnwrap { reg: Dst::R(0) });
+    acts.push(Act::Upgrade { src: WLoc::WR(0), dst: Dst::Discard });
+    acts.push(Act::WDrop { dst: WLoc::WR(0) });
+    acts.push(Act::Collect);
     for (i, a) in acts.iter().enumerate() {
         if wd.failed() {
             return;
@@ -552,6 +567,7 @@ pub fn main(args: &Args) -> i32 {
             base_args.push(k.into());
         }
     }
+    wd.judge_idle_after_unwind.set(props.contains("C07") || mode == "C07");
     let mut sh = Shard { cfg: RunCfg { mode: mode.clone(), props, verbose, leak_check: alloc_mode != "off" }, rep: Report::new(), base_args, stop: false, mode_props_seen: 0 };
     sh.rep.set_add("features", feature_string());
     sh.rep.set_add("profile", if cfg!(debug_assertions) { "debug" } else { "release" });
